@@ -105,6 +105,13 @@ def r1_close_order(ctx):
                  "and close() returns only the join result", floor=6)
     top = ctx.need_fn(ctx.ds, R, r"^server::HttpServer::<C>::close$")
     cl = ctx.ds.body_of(top)
+    # Added after adversary change C17-M (TestContext::teardown, the crate's own caller of close() and what users end their servers with,
+    # wrapped the call in a 10 s tokio::time::timeout and went on as if shutdown had completed): every caller of close() in the crate
+    # awaits it to its end -- no timer or select races it
+    for f2, b2, t2 in callers(ctx.ds, r"^server::HttpServer::<C>::close$"):
+        body = ctx.ds.body_of(f2) if hasattr(ctx.ds, "body_of") else f2
+        racing = sorted(set(t3["callee"] for g in [body] + ctx.ds.descendants(body) for _, t3 in g.live_calls(r"^tokio::time::(timeout|timeout_at|sleep|sleep_until|interval)$|^tokio::select|future::select$|FutureExt::now_or_never$")))
+        ctx.check(R, "caller-awaits-close-to-its-end:%s" % f2.id, not racing, "%s calls close() and %s" % (f2.id, ("also " + ", ".join(racing) + ": the shutdown can be abandoned before it finished") if racing else "uses no timer or select"), (f2, b2))
     sends = [(bb, t) for bb, t in cl.live_calls(r"oneshot::Sender::<T>::send$") if cl.slice(t["args"][0]).reads_field("close_channel")]
     ctx.check(R, "one-close-signal", len(sends) == 1, "sends on closer.close_channel in close(): %d" % len(sends), cl)
     jaw = [a for a in awaits(cl, fut_type_rx=r"future::Shared") if cl.slice(a["term"]["args"][0]).reads_field("join_future")]
